@@ -789,3 +789,63 @@ def rule_printout(P):
     if n == 0:
         raise AnalysisError(f'{f.fq}: no path on terms')
     return res
+
+
+# ----------------------------------------------------------------------
+# R-CMDLOOP (C19): a failing statement is reported and the session goes on
+
+def rule_cmdloop(P):
+    """DispatchingShell.cmdloop on terms.  The command loop of cmd.Cmd ends when an exception escapes a command; the shell wraps it:
+    an exception is reported through self.error(render_exception(exc)) and the loop is entered again, Ctrl-C likewise (with a note on
+    stderr); a normal return of the inner loop (.exit, EOF) ends the session.  So the outcome of one statement never decides whether
+    the next one is read."""
+    from ..report import RuleResult
+    res = RuleResult('R-CMDLOOP')
+    res.exhaustive = True
+    ds = P.module(SH).classes.get('DispatchingShell')
+    f = ds.methods.get('cmdloop') if ds else None
+    if f is None:
+        raise AnalysisError('anchor vanished: DispatchingShell.cmdloop')
+    SELF = Sym('SHELL')
+    for scenario, first in (('the inner loop returns', None), ('a command raises', 'ValueError'), ('Ctrl-C', 'KeyboardInterrupt')):
+        def on_call(fn, fv, rc, a, k, ex, nd, _first=first):
+            name = str(fn)
+            last = name.split('.')[-1]
+            if last == 'cmdloop' and 'super' in name:
+                n_ = sum(1 for e in ex.events if e[0] == 'x-loop')
+                ex.events.append(('x-loop', tuple(a)))
+                if n_ == 0 and _first:
+                    raise Raise(_first, ())
+                return None
+            if last == 'error' and rc == SELF:
+                ex.events.append(('x-error', tuple(a)))
+                return None
+            if last == 'render_exception':
+                return T('call', ('render_exception', tuple(a), ()))
+            if last == 'print':
+                ex.events.append(('x-print', tuple(a), tuple(k)))
+                return None
+            return NotImplemented
+        n = 0
+        for p in Engine(P, on_call=on_call, max_depth=0).paths(f, {'self': SELF}):
+            n += 1
+            loops = [e for e in p.events if e[0] == 'x-loop']
+            errs = [e for e in p.events if e[0] == 'x-error']
+            if first is None:
+                good = p.outcome in ('return', 'fallthrough') and len(loops) == 1 and not errs
+                want = 'the session ends: the inner loop is entered once and cmdloop returns'
+            elif first == 'ValueError':
+                good = p.outcome in ('return', 'fallthrough') and len(loops) == 2 and len(errs) == 1 and \
+                    isinstance(errs[0][1][0], T) and errs[0][1][0].op == 'call' and errs[0][1][0].args[0] == 'render_exception'
+                want = 'the exception is reported with self.error(render_exception(exc)) and the command loop is entered again'
+            else:
+                good = p.outcome in ('return', 'fallthrough') and len(loops) == 2
+                want = 'the command loop is entered again'
+            if good:
+                res.ok({'scenario': scenario, 'then': want})
+            else:
+                res.fail(f.fq, 'cmdloop:resume', f'when {scenario}: {want}; found the inner loop entered {len(loops)} time(s), {len(errs)} error report(s), '
+                         f'cmdloop ends with {p.outcome}{" " + str(p.value[0]) if p.outcome == "raise" else ""}', loc(f))
+        if n == 0:
+            raise AnalysisError(f'{f.fq}: no path on terms')
+    return res
